@@ -209,6 +209,8 @@ pub struct StreamState {
     /// The stream ends after its last item (otherwise it stays open forever).
     pub ends: bool,
     pub ended: bool,
+    /// `poll_next` has returned `None`
+    pub reported_end: bool,
     pub dropped: bool,
     pub created: bool,
     pub waker: Option<Waker>,
@@ -320,6 +322,9 @@ pub struct W {
     /// (cid, seq) of calls whose reply stream has all its items ready from the start (a stream
     /// that never returns `Pending` until it is exhausted).
     pub eager_streams: Vec<(u32, u32)>,
+    /// Per-run knob: every reply stream of this world has all its items - and its end - ready from
+    /// the start (an empty one reports `None` on its very first poll).
+    pub eager_all: bool,
     /// Event numbers at which a service stream handed an item to the server.
     pub stream_item_seqs: Vec<u64>,
 }
@@ -367,6 +372,7 @@ impl W {
             conn_ids: Vec::new(),
             fail: None,
             err_kind: None,
+            eager_all: false,
             watches: Vec::new(),
             watch_class: "watch/changed-without-transport-read",
             watch_moved_class: "watch/reallocated-by-later-transport-read",
@@ -1387,6 +1393,15 @@ impl SimStream {
             return Poll::Ready(Some(it));
         }
         if w.streams[id].ended {
+            if w.streams[id].reported_end {
+                // `Stream` does not say what a stream does when it is polled again after `None`
+                // (it "may panic, block forever, or cause other kinds of problems"); this one records
+                // the caller's mistake and then blocks forever.
+                w.stat("probe.reply_stream_polled_after_it_reported_its_end");
+                w.set_fail("stream/polled-after-end", format!("reply stream {id} was polled again after it had returned None (a Stream need not be fused: it may panic or never complete)"));
+                return Poll::Pending;
+            }
+            w.streams[id].reported_end = true;
             w.ev("stream.end", id as u64, 0);
             let sq = w.seq;
             w.set_changes.push(sq);
